@@ -288,7 +288,10 @@ macro_rules! impl_time_cast {
     ($($T: ty),*) => {
         $(
             impl<U: TimeUnitTrait> Cast<$T> for DateTime<U> {
-                #[inline] fn cast(self) -> $T { Cast::<i64>::cast(self).cast() }
+                // NaT is the null of the time types: it casts like a null number (NaN for floats)
+                #[inline] fn cast(self) -> $T {
+                    if self.is_none() { f64::NAN.cast() } else { Cast::<i64>::cast(self).cast() }
+                }
             }
 
             impl<U: TimeUnitTrait> Cast<Option<$T>> for DateTime<U> {
@@ -303,7 +306,9 @@ macro_rules! impl_time_cast {
 
 
             impl Cast<$T> for TimeDelta {
-                #[inline] fn cast(self) -> $T { Cast::<i64>::cast(self).cast() }
+                #[inline] fn cast(self) -> $T {
+                    if self.is_none() { f64::NAN.cast() } else { Cast::<i64>::cast(self).cast() }
+                }
             }
 
             impl Cast<Option<$T>> for TimeDelta {
@@ -317,7 +322,9 @@ macro_rules! impl_time_cast {
             }
 
             impl Cast<$T> for Time {
-                #[inline] fn cast(self) -> $T { Cast::<i64>::cast(self).cast() }
+                #[inline] fn cast(self) -> $T {
+                    if self.is_none() { f64::NAN.cast() } else { Cast::<i64>::cast(self).cast() }
+                }
             }
 
             impl Cast<Option<$T>> for Time {
